@@ -587,6 +587,16 @@ func adaptEvents(outDir, tier string, rng *rand.Rand) error {
 		a, b := whites[rng.Intn(len(whites))], whites[rng.Intn(len(whites))]
 		m := a.adaptTo(b)
 		v := [3]float32{float32(rng.Intn(3*1024+1))/1024 - 1, float32(rng.Intn(3*1024+1))/1024 - 1, float32(rng.Intn(3*1024+1))/1024 - 1}
+		switch i % 6 { // the basis vectors and colours with one or two zero components (Y = 0 included)
+		case 1:
+			v = [3]float32{1, 0, 0}
+		case 2:
+			v = [3]float32{0, 0, 1}
+		case 3:
+			v[1] = 0
+		case 4:
+			v[0], v[2] = 0, 0
+		}
 		o := m.Apply(ciexyz.Color{X: v[0], Y: v[1], Z: v[2]})
 		sink.put(dy{"kind": "apply", "m": matRows(matrix.Matrix3(m)), "v": []dy{obsv(float64(v[0])), obsv(float64(v[1])), obsv(float64(v[2]))}, "o": obs3(o.X, o.Y, o.Z)})
 	}
